@@ -420,23 +420,6 @@ theorem oneLine_of_declaredOnce {s : Schema} (rr : RedeclResolves s) (d1 : Decla
   rw [this, findE_name hE']
   exact i1
 
-/-- … and in every entity's list a name has one creator -/
-theorem keyByName_of_declaredOnce {s : Schema} {rank : String → Nat} (wf : WF s rank) (rr : RedeclResolves s) (d1 : DeclaredOnce s)
-    (n : String) : KeyByName (seg s (fuelOf s) n) := by
-  intro a ha b hb hab
-  cases hE : s.findE n with
-  | none =>
-    have hf : fuelOf s = (fuelOf s - 1) + 1 := by unfold fuelOf; omega
-    rw [hf, seg_succ, hE] at ha
-    simp at ha
-  | some e =>
-    have hall := seg_allDecl wf rr (fuelOf s) n (wf.bound n e hE)
-    obtain ⟨ca, hca, hcan, hcad⟩ := hall a ha
-    obtain ⟨cb, hcb, hcbn, hcbd⟩ := hall b hb
-    obtain ⟨x, hx, hxn, hxr⟩ := (declares_iff ca a.name).1 hcad
-    have := d1 ca hca cb hcb x hx hxr (by rw [hxn, hab]; exact hcbd)
-    rw [← hcan, ← hcbn, this]
-
 /-- both conditions are decidable and hold on the plain shapes: `b SUBTYPE OF (a)` redeclaring `a.x` in its DERIVE clause and
     `d SUBTYPE OF (b)` redeclaring it again -/
 example : let s : Schema :=
